@@ -87,6 +87,13 @@ def run_case(case):
         eng = q.DailyBusinessDaySimulationEngine(start, end, pre_market=np.bool_(case['pre']), post_market=np.bool_(case['post']))
     elif how == 'int':
         eng = q.DailyBusinessDaySimulationEngine(start, end, pre_market=int(case['pre']), post_market=int(case['post']))
+    elif how == 'pre_only':
+        # only the first flag is given: the second keeps its documented default (True)
+        eng = q.DailyBusinessDaySimulationEngine(start, end, pre_market=case['pre'])
+        case = dict(case, post=True)
+    elif how == 'defaults':
+        eng = q.DailyBusinessDaySimulationEngine(start, end)
+        case = dict(case, pre=True, post=True)
     else:
         eng = q.DailyBusinessDaySimulationEngine(start, end, pre_market=case['pre'], post_market=case['post'])
     got = [(e.ts, e.event_type) for e in eng]
@@ -105,8 +112,15 @@ def run_case(case):
     if again != got:
         raise Violation('the events of a second iteration, kept in a list and read afterwards, are %s...; read on the '
                         'fly the first time they were %s... (%d / %d events)' % (again[:3], got[:3], len(again), len(got)))
+    # two iterations of the same engine alive at the same time do not disturb each other
+    pairs = [((a.ts, a.event_type), (b.ts, b.event_type)) for a, b in zip(eng, eng)]
+    if [x for x, _ in pairs] != got or any(x != y for x, y in pairs):
+        raise Violation('two simultaneous iterations of one engine give %s...; a single pass gives %s... (%d / %d events)' % (
+            pairs[:2], got[:2], len(pairs), len(got)))
     cls = gen.range_classes(case['start'], case['end'])
     cls.append('flags_%d%d' % (case['pre'], case['post']))
+    if case['start'][0] < 1970:
+        cls.append('before_1970')
     if how != 'ctor':
         cls.append('flags_given_as_' + how)
     if tz:
@@ -120,7 +134,7 @@ def run_case(case):
 def cases(draw):
     start, end = draw(gen.ranges())
     case = {'start': start, 'end': end, 'pre': draw(st.booleans()), 'post': draw(st.booleans()),
-            'flags_how': draw(st.sampled_from(['ctor', 'ctor', 'ctor', 'attr', 'numpy', 'int']))}
+            'flags_how': draw(st.sampled_from(['ctor', 'ctor', 'ctor', 'attr', 'numpy', 'int', 'pre_only', 'defaults']))}
     if draw(st.sampled_from([False] * 5 + [True])):
         # the same instants written in another zone; times of day chosen so that the local and the UTC calendar day agree
         tz = draw(st.sampled_from(['America/New_York', 'Asia/Tokyo', 'Europe/London']))
